@@ -430,13 +430,17 @@ Definition hop_after (h : option N) : option N := match h with Some x => Some (x
 
 (* PitCsTree.InsertInterest: the entry with the aggregation key, created (with the fresh token of the choice) if absent;
    the PIT is returned split around it; the flag says whether the fresh token was admissible (not in the token map) *)
+Definition tok_used (p : list pite) (t : N) : bool := existsb (fun x => pe_tok x =? t) p.
+(* generateNewPitToken draws until the token is not in the token map; an inadmissible pick is replaced by a fresh one *)
+Definition fresh_token (p : list pite) (t : N) : N :=
+  if tok_used p t then N.succ (fold_left (fun m x => N.max m (pe_tok x)) p 0) else t.
 Definition insert_interest (p : list pite) (n : name) (cbp mbf : bool) (hk : name) (tok : N)
   : list pite * pite * list pite * bool :=
   match find_entry n cbp mbf hk p with
   | Some (a, x, b) => (a, x, b, true)
-  | None => (p, {| pe_name := n; pe_cbp := cbp; pe_mbf := mbf; pe_hint := hk; pe_tok := tok;
+  | None => (p, {| pe_name := n; pe_cbp := cbp; pe_mbf := mbf; pe_hint := hk; pe_tok := fresh_token p tok;
                    pe_ins := []; pe_outs := []; pe_sat := false; pe_q := None |},
-             [], negb (existsb (fun x => pe_tok x =? tok) p))
+             [], negb (tok_used p tok))
   end.
 
 (* the duplicate-nonce (loop) test of InsertInterest: same nonce in an in-record of another face *)
@@ -554,8 +558,8 @@ Definition step_data_thread (s : fw) (now : N) (d : data) (t : option N) : resul
 Definition step_data (s : fw) (now : N) (d : data) : result :=
   match data_token (d_tok d) with
   | Some (th, tk) =>
-    if th =? nthreads s then {| r_st := s; r_outs := []; r_ok := true; r_disp := DNone; r_panic := true |}
-    else if th =? tid s then step_data_thread s now d (Some tk)
+    if th =? tid s then step_data_thread s now d (Some tk)
+    else if th =? nthreads s then {| r_st := s; r_outs := []; r_ok := true; r_disp := DNone; r_panic := true |}
     else res s [] true DNone
   | None => step_data_thread s now d None
   end.
@@ -575,7 +579,7 @@ Definition q_min (p : list pite) (e : pite) : bool :=
 
 (* PitCsTree.Update: pops every entry whose priority is <= now; the pop order among entries is taken from the
    implementation (ch_expired) and checked (each popped entry is due and minimal); entries still due afterwards
-   are popped in list order and the choice is reported inadmissible *)
+   are removed as well (keeping the list order of the others) and the choice is reported inadmissible *)
 Fixpoint pop_chosen (life now : N) (toks : list N) (pd : list pite * list (name * N * N)) (ok : bool)
   : list pite * list (name * N * N) * bool :=
   match toks with
@@ -591,8 +595,8 @@ Fixpoint pop_chosen (life now : N) (toks : list N) (pd : list pite * list (name 
 Definition step_tick (s : fw) (now : N) (ch : choice) : result :=
   let '(pd, ok) := pop_chosen (dnl_life s) now (ch_expired ch) (pit s, dnl s) true in
   let rest := filter (due now) (fst pd) in
-  let pd' := fold_left (expire_one (dnl_life s) now) rest pd in
-  res (with_dnl (with_pit s (fst pd')) (snd pd')) [] (ok && negb (nonempty rest)) DNone.
+  let d' := fold_left (fun acc e => snd (expire_one (dnl_life s) now ([], acc) e)) rest (snd pd) in
+  res (with_dnl (with_pit s (filter (fun e => negb (due now e)) (fst pd))) d') [] (ok && negb (nonempty rest)) DNone.
 
 (* ------------------------------------------------------------------------------------------------ step *)
 Definition step (s : fw) (e : ev) (ch : choice) : result :=
